@@ -37,6 +37,8 @@ Cls_26     == {<<2, 6>>}
 Cls_6_none == {<<6>>, <<>>}
 Cls_1_6_none == {<<1>>, <<6>>, <<>>}
 Cls_none   == {}
+Cls_26_1   == {<<2, 6>>, <<1>>}
+Cls_6_none_34 == {<<6>>, <<>>, <<3, 4>>}
 
 MCInit == Init /\ act = NoAct /\ nset = 0
 
